@@ -143,6 +143,49 @@ CLAIMS.update({
         design='4/C17'),
 })
 
+CLAIMS.update({
+    'C06': dict(
+        text='R-READY on the shared readiness predicates, protocol/orders/CAS kind of the shared push, R-SHAREDWALK '
+             '(each list node run once with next read first, exactly kSharedRefNoFuture DecRefs, one before the last '
+             'callback), R-MOVEOUT (the shared value is moved only under GetRef()==1 / below the kSharedRefNoFuture '
+             'threshold; factories create the right initial counts), R-CONSTOBS (const observers and shared-attached '
+             'continuations read as const), R-CONNECT, R-NODISCARD, R-NODEREUSE (one callback object on at most one '
+             'shared core). The interleaving behaviour is not decided.',
+        technique='typestate / guard-dominance rules per CFG path over all instantiations + role table',
+        design='4/C06'),
+    'C13': dict(
+        text='Over every awaiter instantiation in three configurations (symmetric transfer on/off, FIBER): R-READY, '
+             'R-SUSPEND (bool await_suspend == registration outcome), R-HANDOFF (no awaiter field touched after the '
+             'coroutine may run elsewhere), R-COUNTER (multi-await counter arithmetic agrees), R-HERENEXT (symmetric / '
+             'asymmetric twins equal), R-DESTROY, executor assigned before Submit, Store before SetResult, R-HEAD for '
+             'co_awaited Tasks. "Resumes exactly once after the event" over interleavings is not decided.',
+        technique='per-path effect/typestate rules over clang CFGs of awaiter instantiations',
+        design='4/C13'),
+    'C14': dict(
+        text='Protocol, orders and CAS kinds of MutexImpl::_sender for the four option combinations; R-TRYLOCK (TryLock '
+             '== strong CAS from not-locked; AwaitLock false iff it won the free lock, true iff it enqueued itself with '
+             'next written first), R-RECEIVER (holder-only field; release CAS only when it is null), R-HANDOFF (list '
+             'head advanced before the next holder is resumed, nothing touched after), no blocking call, R-FIFO, '
+             'R-GUARD. Mutual exclusion / no lost wake-up over all interleavings is not decided.',
+        technique='role table over atomic sites + per-path rules over clang CFGs of the four MutexImpl instantiations',
+        design='4/C14'),
+    'C15': dict(
+        text='Protocol/orders/CAS kinds of _state, _readers_wait and the spinlock word; R-LOCKSET (queue fields only '
+             'under the spinlock, released exactly once per path, coroutines resumed with it released) over all entry '
+             'points with SlowUnlock/RunWriter/RunReaders inlined; R-TRYSHARED; R-CONST (bit-field constants and the '
+             'armed reader amount). Reader/writer exclusion and liveness for all arrival orders are not decided.',
+        technique='lockset dataflow per CFG path with helper inlining + role table + constant agreement',
+        design='4/C15'),
+    'C16': dict(
+        text='Protocol/orders of OneShotEvent::_head and the counter; R-READY (event and attached futures), R-LINEAR (Set '
+             'walk), R-TRYADD (fails iff all-done observed), R-SETPATH (Set only from the counter reaching zero), '
+             'R-SIBLING (InsertRange releases/subtracts not-registered inputs), R-TIMEDWAITER (two owners, fallback '
+             'delete only when not registered), awaiter R-SUSPEND/R-HANDOFF. Release "exactly when the count hits '
+             'zero" over all histories is not decided.',
+        technique='role table + per-path typestate rules over clang CFGs',
+        design='4/C16'),
+})
+
 NOT_YET = {}
 
 
